@@ -7,6 +7,9 @@ def dispatch (op : String) (args : List Sx) : String :=
   | "enc" => opEnc args
   | "dec" => opDec args
   | "spec" => opSpec args
+  | "rtder" => opRtDer args
+  | "refdec" => opRefDec args
+  | "refdecs" => opRefDecStrict args
   | "decwl" => opDecWl args
   | "rt" => opRt args
   | "probe" => opProbe args
